@@ -79,6 +79,24 @@ func New(id, tier, level string) *Run {
 		distinct: map[string]struct{}{}, Inconcl: map[string]int64{}, Extra: map[string]any{},
 		knownHit: map[string]int{}, viol: map[string]string{}, maxSample: 8, Floor: 2}
 	r.known = loadKnown(id)
+	// generous wall-clock watchdog around the whole run: its firing is never a verdict on the
+	// property, only "this run did not finish" (exit 2, counted as inconclusive)
+	limit := 45 * time.Minute
+	if tier == "thorough" {
+		limit = 5 * time.Hour
+	}
+	if m, err := strconv.Atoi(os.Getenv("VERIF_WATCHDOG_MIN")); err == nil && m > 0 {
+		limit = time.Duration(m) * time.Minute
+	}
+	go func() {
+		time.Sleep(limit)
+		fmt.Fprintf(os.Stderr, "WATCHDOG: check %s %s did not finish within %v — inconclusive, not a verdict\n", id, tier, limit)
+		r.Inconclusive("watchdog:run-did-not-finish")
+		if c := r.Finish(); c == 1 {
+			os.Exit(1) // violations already reported stay violations
+		}
+		os.Exit(2)
+	}()
 	if vr := os.Getenv("VERIF_REPO"); vr != "" && vr != "/repo" && EvidenceDir == "" {
 		// mutation-sanity runs against a scratch copy must not overwrite the evidence of the real tree
 		EvidenceDir = filepath.Join(Root, ".work", "mutant-evidence")
